@@ -46,6 +46,7 @@ if [ -z "$PHONY" ]; then
     if [ -n "$WATCH" ]; then if [ -e "$RV_TOP/$WATCH" ]; then echo "$WATCH=$(cksum < "$RV_TOP/$WATCH")"; else echo "$WATCH=absent"; fi; fi
   } > "$3"
   [ -z "$STAMP" ] || redo-stamp < "$3"
+  if [ -n "$LINKOUT" ]; then mv "$3" "$1.ldata"; ln -s "$(basename "$1").ldata" "$3"; fi
 fi
 echo "E $NAME $$ 0" >&9
 '''
@@ -83,7 +84,7 @@ class Program:
 
     def shape(self):
         """Canonical description of the graph that ignores names' incidental numbering as little as needed."""
-        return [(n, sorted(k for k in ('stamp', 'always', 'head', 'phony', 'dyn', 'split', 'alias') if t.get(k)) +
+        return [(n, sorted(k for k in ('stamp', 'always', 'head', 'phony', 'dyn', 'split', 'alias', 'linkout') if t.get(k)) +
                  (['flag'] if t.get('flag') is not None else []) + (['watch'] if t.get('watch') else []) +
                  (['opt'] if t.get('opt') else []), sorted(t['deps'])) for n, t in sorted(self.targets.items())]
 
@@ -200,7 +201,7 @@ class Program:
         t = self.targets[name]
         lines = ["NAME='%s'" % name, "DEPS='%s'" % ' '.join(t['deps'])]
         for k, var in (('dyn', 'DYN'), ('stamp', 'STAMP'), ('always', 'ALWAYS'), ('head', 'HEAD'),
-                       ('phony', 'PHONY'), ('split', 'SPLIT'), ('alias', 'ALIAS')):
+                       ('phony', 'PHONY'), ('split', 'SPLIT'), ('alias', 'ALIAS'), ('linkout', 'LINKOUT')):
             lines.append("%s=%s" % (var, '1' if t.get(k) else ''))
         lines.append("FLAG=%s" % ('1' if t.get('flag') is not None else ''))
         lines.append("WATCH='%s'" % (t.get('watch') or ''))
